@@ -7,6 +7,7 @@ from rules import chk as K
 from rules import misc as M
 from rules import durability as D
 from rules import operators as OP
+from rules import builders as B
 
 
 def run(ctx):
@@ -28,6 +29,9 @@ def run(ctx):
     ctx.run(S.pan4_constant_result_columns)
     ctx.run(OP.pan5_result_type_lattice_total)
     ctx.run(O.pan6_cold_load_failures_are_values)
+    ctx.run(B.pan7_empty_batch_is_applicable)
+    ctx.run(B.flw24_integer_builder_differences)
+    ctx.run(B.nul6_mixed_buffer_keeps_row_slots)
     return ctx.finish(
         'Static analysis of compiler MIR: deadlock-freedom clauses (acyclic lock-order graph over '
         'all lock identities, no guard across blocking calls except tabled sites, paired condvar '
